@@ -199,11 +199,11 @@ Definition site_freqs (s : site) (e : env) : list Q :=
   | S_cache_fft => cache_fft_freqs (eff_Fs e) (eNFFT e)
   | A_MTCoh | A_SNR => scale (eff_Fs e) (rfftfreq (eN e))
   | A_SparseCoh | A_SeedCoh => band_freqs (eff_Fs e) (eNFFT e) (eLb e) (eUb e)
-  | A_Spec_periodogram => periodogram_freqs (eff_Fs e) (eN e) OneSided
+  | A_Spec_periodogram => periodogram_freqs (eff_Fs e) (eN e) (eSides e)   (* sides: complex data -> two-sided *)
   | A_Spec_fourier_real => get_freqs (eff_Fs e) (eN e)
   | U_get_freqs => get_freqs (eff_Fs e) (eNFFT e)
   | A_Spec_fourier_complex => fourier_complex_freqs (eff_Fs e) (eN e)
-  | A_Spec_mt => mt_freqs (eff_Fs e) (eN e) OneSided
+  | A_Spec_mt => mt_freqs (eff_Fs e) (eN e) (eSides e)
   | A_Granger => granger_reported (eff_Fs e) (eNfreqs e)
   end.
 
@@ -215,7 +215,8 @@ Definition site_len (s : site) (e : env) : nat :=
   | S_gs_welch | A_Coh_welch | A_Spec_psd | A_Spec_cpsd => nbins (eNFFT e) (eSides e)
   | S_cache_fft | A_SparseCoh | A_SeedCoh =>
       length (cache_fft_bins (eff_Fs e) (eNFFT e) (eLb e) (eUb e))
-  | A_MTCoh | A_SNR | A_Spec_periodogram | A_Spec_fourier_real | A_Spec_mt => (eN e / 2 + 1)%nat
+  | A_MTCoh | A_SNR | A_Spec_fourier_real => (eN e / 2 + 1)%nat
+  | A_Spec_periodogram | A_Spec_mt => nbins (eN e) (eSides e)
   | A_Spec_fourier_complex => eN e
   | A_Granger => (eNfreqs e / 2 + 1)%nat
   | U_get_freqs => (eNFFT e / 2 + 1)%nat
@@ -228,7 +229,8 @@ Definition site_true (s : site) (e : env) : list Q :=
   | S_gs_welch | A_Coh_welch | A_Spec_psd | A_Spec_cpsd => true_bins (eff_Fs e) (eNFFT e) (eSides e)
   | S_mt_psd | S_mt_csd | S_gs_mt | A_Coh_mt => true_bins (eff_Fs e) (mt_nfft (eN e) (eNFFT e)) (eSides e)
   | S_cache_fft | A_SparseCoh | A_SeedCoh => true_band_freqs (eff_Fs e) (eNFFT e) (eLb e) (eUb e)
-  | A_MTCoh | A_SNR | A_Spec_periodogram | A_Spec_fourier_real | A_Spec_mt => true_bins (eff_Fs e) (eN e) OneSided
+  | A_MTCoh | A_SNR | A_Spec_fourier_real => true_bins (eff_Fs e) (eN e) OneSided
+  | A_Spec_periodogram | A_Spec_mt => true_bins (eff_Fs e) (eN e) (eSides e)
   | A_Spec_fourier_complex => true_shifted_bins (eff_Fs e) (eN e)
   | A_Granger => granger_true (ePi e) (eff_Fs e) (eNfreqs e)
   | U_get_freqs => true_bins (eff_Fs e) (eNFFT e) OneSided
